@@ -407,7 +407,10 @@ Definition incall_changed_step (st : state) (acc : list string) (u : gval) : lis
                  end) with
           | Some (GIface (JStr sid)) =>
               if mem sid (st_known st) then
-                if b then (if mem sid acc then acc else acc ++ [sid])
+                if b then
+                  (* only sessions of this room can be in its call (fix a48dc37): an entry
+                     for a session that is elsewhere - in another room, in no room - is skipped *)
+                  (if mem sid (st_members st) then (if mem sid acc then acc else acc ++ [sid]) else acc)
                 else filter (fun s => negb (String.eqb s sid)) acc
               else acc
           | _ => acc
